@@ -13,7 +13,7 @@ PID = "C16"
 TITLE = "FillRequest processes the flow in consecutive blocks, however it is driven"
 LEAN_MODULES = ["LenaModel.Props.C16"]
 LEAN_SOURCES = ["LenaModel/Model/C16.lean", "LenaModel/Lemmas/C16.lean", "LenaModel/Lemmas/C16Run.lean",
-                "LenaModel/Lemmas/C16Acc.lean", "LenaModel/Props/C16.lean"]
+                "LenaModel/Lemmas/C16Acc.lean", "LenaModel/Lemmas/C16Yor.lean", "LenaModel/Props/C16.lean"]
 DRIVER = "drivers/C16.lean"
 THEOREMS = [
     "Lena.C16.init_bufsize_pos",
@@ -26,6 +26,7 @@ THEOREMS = [
     "Lena.C16.buffers_bounded",
     "Lena.C16.buffers_bounded_between",
     # beyond the planned nine
+    "Lena.C16.schedule_yor",
     "Lena.C16.init_accepts_iff",
     "Lena.C16.accounted_once_recorded",
     "Lena.C16.request_idempotent",
@@ -37,7 +38,7 @@ TRUSTED = [
     "Lean 4.33.0 kernel; axioms limited to propext, Classical.choice, Quot.sound (audited by #print axioms on every run)",
     "hand transcription of FillRequest.__init__/fill/request/_run_fill_compute/_run_run, FillRequestSeq.__init__/request and "
     "the fill/request branch of Split.run into LenaModel/Model/C16.lean, validated by this correspondence check "
-    "(thorough tier: exhaustive over every request schedule of flows up to length 8; quick tier: up to length 6 + samples)",
+    "(thorough tier: exhaustive over every request schedule of flows up to length 8; quick tier: up to length 7 + samples)",
     "itertools.islice / itertools.chain semantics on iterators as transcribed (validated likewise)",
     "JSON line protocol encoders (harness/props/c16.py, drivers/C16.lean)",
 ]
@@ -58,7 +59,7 @@ RULE = ("thorough, exhaustive: FillRequest.__init__ for every subset of {run,fil
         "yield_on_remainder x 1-2 results x state-changing request; Split bufsize in {1..9,1000,None} around a FillRequest "
         "branch given as element / tuple / FillRequestSeq, flows 0..8; plus 60000 seeded random schedules for flows 9..40, "
         "bufsize 1..9. quick (<= 60 s): __init__ with buffer flags in {None,True}^2; run for all flows 0..8 (1-result "
-        "element) and lengths 0,4,7,8 (variants); every subset of request points for flows 0..6 (1-result element) plus "
+        "element) and lengths 0,4,7,8 (variants); every subset of request points for flows 0..7 (1-result element) plus "
         "9000 seeded samples of the rest of the thorough fill/request scope; Split for all flows 0..8 and all three "
         "forms (1-result, yield_on_remainder off), lengths 0,5,8 as element otherwise. "
         "Non-trivial: at least one result yielded or an exception.")
@@ -183,50 +184,75 @@ def _sizes(fr):
 # ---- guards for a non-terminating implementation ------------------------------------------------
 # "every call returns in finite time" is watched by common's per-case timer (CASE_TIMEOUT, confirmed by a solitary
 # re-run with a ten times larger budget).  Two additions keep a check over an implementation that hangs short
-# and harmless:
-#  * a hang that allocates (the defect fixed in 8562852 extended a list while iterating over it) hits an
-#    address-space limit set in the pool workers and surfaces at once as `Other:MemoryError` in that call;
-#  * after two cases that hung while burning CPU (and their two confirming re-runs) a process stops executing
-#    cases: they are returned as {"skipped": ...} (never a failure, labelled in the histogram).  The hangs seen
-#    until then are reported as failing inputs, so the check exits 1 in minutes instead of hours.
-_HANGS = {"n": 0, "guard": False}
+# and harmless for the machine:
+#  * while the real code runs, the address space of the process is limited to what it had + 256 MB, so a hang
+#    that allocates (the defect fixed in 8562852 extended a list while iterating over it) surfaces within a second
+#    as `Other:MemoryError` in that call (the limit is lifted again before returning: the main process starts Lean);
+#  * after two cases that hung while burning CPU (and their two confirming re-runs), or ten that ran out of memory,
+#    a process stops executing cases: they are returned as {"skipped": ...} (never a failure, never compared,
+#    labelled in the histogram).  What was seen until then is reported as failing input, so the check exits 1 in
+#    minutes instead of hours.
+_HANGS = {"cpu": 0, "mem": 0}
 _HANG_LIMIT = 4
-_MEM_HEADROOM = 1 << 30
+_MEM_LIMIT = 10
+_MEM_HEADROOM = 256 << 20
 
 
-def _guard_memory():
-    if _HANGS["guard"]:
-        return
-    _HANGS["guard"] = True
+def _limit_memory():
+    """Limit the address space to what the process has now + _MEM_HEADROOM.  Pool workers (they never start
+    another program) do this once and keep the limit; the main process (few cases: small runs, shrinking, replay)
+    does it per call and gets the previous (soft, hard) limit back to restore it."""
     try:
         import multiprocessing
         import resource
-        if multiprocessing.current_process().name == "MainProcess":
-            return      # the main process starts the Lean driver: leave its limits alone
+        worker = multiprocessing.current_process().name != "MainProcess"
+        if worker and _HANGS.get("limited"):
+            return None
         with open("/proc/self/statm") as f:
             vm = int(f.read().split()[0]) * resource.getpagesize()
         soft, hard = resource.getrlimit(resource.RLIMIT_AS)
         lim = vm + _MEM_HEADROOM
-        if hard != resource.RLIM_INFINITY:
-            lim = min(lim, hard)
-        if soft == resource.RLIM_INFINITY or lim < soft:
-            resource.setrlimit(resource.RLIMIT_AS, (lim, hard))
+        if hard != resource.RLIM_INFINITY and lim > hard:
+            return None
+        if soft != resource.RLIM_INFINITY and lim >= soft:
+            return None
+        resource.setrlimit(resource.RLIMIT_AS, (lim, hard))
+        if worker:
+            _HANGS["limited"] = True
+            return None
+        return (soft, hard)
     except Exception:
-        pass
+        return None
+
+
+def _unlimit_memory(old):
+    if old is not None:
+        try:
+            import resource
+            resource.setrlimit(resource.RLIMIT_AS, old)
+        except Exception:
+            pass
 
 
 def run_impl(case):
-    if _HANGS["n"] >= _HANG_LIMIT and case["op"] != "init":
-        return {"skipped": f"{_HANGS['n']} calls of the real code hung in this process before"}
-    _guard_memory()
+    if (_HANGS["cpu"] >= _HANG_LIMIT or _HANGS["mem"] >= _MEM_LIMIT) and case["op"] != "init":
+        return {"skipped": f"{_HANGS['cpu']} calls of the real code hung and {_HANGS['mem']} ran out of memory "
+                           "in this process before"}
+    import lena.core    # before the memory limit: the first import maps shared libraries
     t0 = time.process_time()
+    old = _limit_memory()
     try:
-        return _run_impl(case)
+        res = _run_impl(case)
     except BaseException as e:
         # common.CaseTimeout; counted only if the case itself used the CPU (not a stalled machine)
         if type(e).__name__ == "CaseTimeout" and time.process_time() - t0 > 0.7 * CASE_TIMEOUT:
-            _HANGS["n"] += 1
+            _HANGS["cpu"] += 1
         raise
+    finally:
+        _unlimit_memory(old)
+    if isinstance(res, dict) and res.get("e") == "Other:MemoryError":
+        _HANGS["mem"] += 1
+    return res
 
 
 def _run_impl(case):
@@ -322,6 +348,8 @@ def compare(case, res, replies):
         return f"model driver error: {m['err']}"
     if "skipped" in res:
         return None
+    if "__timeout__" in res:
+        return f"impl did not return (watchdog), model {m}"
     op = case["op"]
     if "e" in res or "e" in m:
         if res.get("e") != m.get("e"):
@@ -492,7 +520,7 @@ def _reset_opts(kind):
 
 def gen_cases(ctx):
     """thorough: the whole scope below, exhaustively, plus seeded long random schedules.
-    quick (<= 60 s): the same generators with the exhaustive scopes cut to flows <= 6 (every request
+    quick (<= 60 s): the same generators with the exhaustive scopes cut to flows <= 7 (every request
     schedule, 1-result element) and seeded samples of the rest of the thorough scope."""
     thorough = ctx.tier == "thorough"
     rng = ctx.rng
@@ -528,8 +556,8 @@ def gen_cases(ctx):
                                     else:
                                         cases.append(c)
     # --- fill/request: every subset of request points --------------------------------------
-    # thorough: flows 0..8, all element variants.  quick: flows 0..6 for the 1-result element; the rest of the
-    # thorough scope (flows 7..8, 2-result / state-changing request) is sampled below.
+    # thorough: flows 0..8, all element variants.  quick: flows 0..7 for the 1-result element; the rest of the
+    # thorough scope (flows of length 8, 2-result / state-changing request) is sampled below.
     rest = []      # the part of the thorough scope that quick only samples: (kind, k, mut, hr, reset, n, buf, yor, L)
     for kind in KINDS_FILL:
         for k, mut in ((1, False), (2, False), (1, True), (2, True)):
@@ -541,7 +569,7 @@ def gen_cases(ctx):
                     for buf in ("bi", "bo"):
                         for yor in (False, True):
                             for L in range(0, 9):
-                                if thorough or (plain and L <= 6):
+                                if thorough or (plain and L <= 7):
                                     for mask in range(1 << L):
                                         c = _base(kind, k, mut, hr, n, buf, reset, yor)
                                         c.update(op="ops", n=L, mask=mask)
@@ -659,7 +687,7 @@ LEVEL_TEXT = ("Lean 4 theorems about a transcribed model of FillRequest (__init_
               "value is accounted exactly once (the filled values are cut into the emitted blocks, the pending values and "
               "the input buffer), buffers are empty after request and bounded between requests. The model is tied to /repo "
               "by a correspondence check that enumerates every subset of request points for flows up to length 8 (thorough; "
-              "6 + samples in quick; all flag combinations, bufsize 1..5) and Split bufsizes around a FillRequest branch, "
+              "7 + samples in quick; all flag combinations, bufsize 1..5) and Split bufsizes around a FillRequest branch, "
               "plus a direct block-by-block Python reference oracle and a watchdog on the real code.")
 LEVEL_NOTE = ("Trusted: Lean kernel (+ propext, Classical.choice, Quot.sound), the hand transcription validated by the "
               "exhaustive-in-scope correspondence run, iterator semantics of islice/chain as transcribed, the JSON protocol. "
